@@ -123,3 +123,25 @@ TEXT["C12"] = {
              "refresh in which it was present again (exactly_once). Tie: real getOffsets/maybeUpdateMetadataAndDeleteTopics vs the compiled model with topics appearing, disappearing, re-appearing and failures at every position."),
     "note": ("Trusted: Lean kernel + standard axioms; harness and fake Kafka. The tie is sampled."),
 }
+
+TEXT["C09"] = {
+    "design_ref": "DESIGN.md §4.9",
+    "technique": "Lean 4 theorems over the storage model: removal + frame conditions as equalities of every fetch view, for every state + differential correspondence on histories with deletions and expiry",
+    "text": ("Proof: Props/C09.lean proves for every storage state satisfying the one-value-per-key invariant (proved to hold initially and after every request): after delete-group, "
+             "delete-group-topic and delete-topic the deleted item is in no list, detail or topic view, while every other cluster, group, topic and partition is reported exactly as before "
+             "(removes/frame theorems as equalities of all fetch views at every clock value); deleting what does not exist is the identity; a group whose newest commit is older than the expiry "
+             "time is NOTFOUND and then gone from the listing, with the exact boundary; unexpired reads are pure; commits older than the expiry time are ignored. Tie: real storage handlers vs the "
+             "compiled model with all fetches issued after every deletion."),
+    "note": ("Trusted: Lean kernel + standard axioms; harness; clock by sample-and-discard plus time shifting for expiry. Status staleness through the cache is C05's subject."),
+}
+TEXT["C10"] = {
+    "design_ref": "DESIGN.md §4.10",
+    "technique": "Lean 4 theorems per ingestion path (storage history invariant, decoder for all bytes, notifier for all histories) + three differential correspondence streams with allow/deny pairs",
+    "text": ("Proof: Props/C10.lean proves: accept = (allowlist unset or matches) AND (denylist unset or does not match) (accept_iff); a rejected group's commit, ownership update and owner clear "
+             "leave storage untouched, and after any history every group in any listing was created by an accepted commit or ownership update (storage_tracks_only_accepted); the offsets-topic "
+             "reader forwards no offset, ownership, clear or delete request for a rejected group for any bytes (kafka_reader_forwards_only_accepted — false before the repair of the metadata path, "
+             "found by the check); a notifier module is never notified, open or close, about a group its lists reject. Tie: storage, decode and notifier streams with list pairs; regexp matching is an oracle bit. "
+             "The Zookeeper reader's gate is not yet tied by a stream (see note)."),
+    "note": ("Trusted: Lean kernel + standard axioms; harness; regexp engine as oracle. Partial: the Zookeeper reader path has a single accept gate (resetGroupListWatchAndAdd) that is read, not "
+             "modelled; ZK watch dynamics are not modelled."),
+}
